@@ -369,7 +369,7 @@ def rnd_event(rng, kind):
 
 def histories(ctx):
     rng = ctx.rng
-    for _ in range(ctx.q(1500, 40000)):
+    for _ in range(ctx.q(5000, 150000)):
         kind = rng.choice(KINDS)
         cfg, val = rnd_init(rng, kind)
         res = outcome(lambda: Obj(kind, cfg, val))
